@@ -41,8 +41,8 @@ CLAIMS = {
         '6/C05',
     ),
     'C02': (
-        "Lean 4 theorems: statement level, for every well-formed importer, module set and statement (absolute, from, relative forms): ImportConverter._convert names exactly the modules the specification names and raises exactly when a relative import reaches above the root (Pta.C02.convertStmt_spec, convertStmt_error_iff, relativeImportee_spec); graph level, default options, any exclusions: the import edges of the scan graph are exactly the specification's edges (scan_imports_exact, scan_imports_exact_nocollision, scan_error_iff, parent_child_not_import) relative to the directory-walk hypotheses ScanHyps, whose decidable form scanCheck is shown satisfiable on four example trees. Tie: real files written to a tmpfs and scanned with get_evaluable_architecture vs the model (fed each file's Import/ImportFrom nodes as enumerated by ast.walk) vs the specification, over every statement-list position of the running interpreter's grammar x every import form, and random trees.",
-        "Partial: 'nested at any depth' is outside the model (the AST walk is a parameter; the harness enumerates positions from the running interpreter's ast and prints coverage gaps); ScanHyps (walk = surviving entries) is C04's part and stays a hypothesis of the graph-level theorems; a file x.py next to a package directory x/ is outside the domain (hierarchy edge and import edge collide in the backend; collision_counterexample). Trusted: Lean kernel, harness/driver, CPython ast.",
+        "Lean 4 theorems: statement level, for every well-formed importer, module set and statement (absolute, from, relative forms): ImportConverter._convert names exactly the modules the specification names and raises exactly when a relative import reaches above the root (Pta.C02.convertStmt_spec, convertStmt_error_iff, relativeImportee_spec); graph level, default options, any exclusions, for every directory tree that is well-formed where the scan looks (treeWFFor): the import edges of the scan graph are exactly the specification's edges (scan_imports_exact_tree, scan_error_iff_tree; composed with the C04 walk theorems, no walk hypothesis left). Tie: real files written to a tmpfs and scanned with get_evaluable_architecture vs the model (fed each file's Import/ImportFrom nodes as enumerated by ast.walk) vs the specification, over every statement-list position of the running interpreter's grammar x every import form (incl. names that are not modules), random trees, and non-default option sets.",
+        "Partial: 'nested at any depth' is outside the model (the AST walk is a parameter; the harness enumerates positions from the running interpreter's ast and prints coverage gaps). A file x.py next to a package directory x/ is outside the domain (hierarchy edge and import edge collide in the backend; collision_counterexample). Trusted: Lean kernel, harness/driver, CPython ast.",
         TECH,
         '6/C02',
     ),
@@ -59,32 +59,32 @@ CLAIMS = {
         '6/C03',
     ),
     'C08': (
-        'Lean 4 theorems for ALL patterns and ALL subject strings: the converted glob pattern lies in the emitted regex class, and matching it equals the documented glob meaning (Pta.C08.glob_spec, convert_shape, literal_pattern, unescape_escape); an excluded directory/file contributes nothing to the walk. Tie: exhaustive comparison of real re.match(convert(p), s) with the model matcher over all patterns/strings up to the stated length, and filtered vs unfiltered real scans vs the scan model on generated trees.',
-        "Trusted: Lean kernel, harness/driver; Python's re engine on the emitted pattern class is exercised exhaustively on short strings, not modelled; user regex exclusions are an uninterpreted relation; paths with newlines out of scope; trees where an excluded module is the sub-module target of a surviving 'from P import n' are judged in C02.",
+        'Lean 4 theorems for ALL patterns and ALL subject strings: the converted glob pattern lies in the emitted regex class and matching it equals the documented glob meaning (Pta.C08.glob_spec, convert_shape, literal_pattern, unescape_escape); for every tree and every pair of exclusion predicates excl0 <= excl: exclusion_exact_modules / exclusion_exact_files / excluded_contributes_no_module / unexcluded_module_remains (a path matching a pattern, and everything below an excluded directory, contributes no module; every other module is exactly as in the scan without the pattern), exclusion_exact_imports (every import between two remaining modules is exactly as before, under the documented carve-out), carve_out_needed (decide-checked witness), conversion_consults (the three places where the conversion reads the module list). Tie: exhaustive comparison of real re.match(convert(p), s) with the model matcher over all patterns/strings up to the stated length, and filtered vs unfiltered real scans vs the scan model on generated trees.',
+        "Carve-out of exclusion_exact_imports: no excluded module is the sub-module target of a surviving 'from P import n' / needed for root-prefix resolution (otherwise the statement legitimately names P instead; witness theorem). Python's re engine on the emitted pattern class is exercised exhaustively on short strings, not modelled; user regex exclusions are an uninterpreted relation; paths with newlines out of scope. Trusted: Lean kernel, harness/driver.",
         TECH,
         '6/C08',
     ),
     'C09': (
-        "Lean 4 theorems: Pta.C09.quotient (for every well-formed architecture and every limit the graph built with level_limit has exactly the truncated names as nodes and an import a->b iff some module truncating to a imports one truncating to b and a != b), graph_of_quotient_arch / quotient_arch_wf (the flattened graph is the graph of the well-formed quotient architecture), and verdict_preserved / spec_verdict_preserved / verdict_lim_spec: every strict rule whose named modules lie at or above level k (sub-module parents strictly above) has the same verdict on the flattened and the full graph, all shapes and batch sizes; verdict_not_preserved_related documents by a decide-checked witness why strictness is needed. Tie: two real scans / two real graph builds vs the model, module and import sets and verdicts.",
-        "Verdict preservation is stated on strict rules (pairwise unrelated identifiers): for related identifiers it is false for any implementation satisfying the quotient law (witness theorem). Trusted: Lean kernel, harness/driver.",
+        "Lean 4 theorems: Pta.C09.quotient (architecture level: the graph built with level_limit has exactly the truncated names as nodes and an import a->b iff some module truncating to a imports one truncating to b and a != b), scan level for the real entry point with module_path below root_path: scan_quotient_nodes, scan_quotient_hier, scanQuotientImports / scan_quotient_imports (the limited scan's import edges are exactly the truncated import edges of the unlimited scan, for every tree and every option set - proved after defect F-C09a was repaired), scan_error_indep, flatten_is_truncation (k levels below module_path), and verdict_preserved / spec_verdict_preserved / verdict_lim_spec (strict rules above the limit keep their verdict); verdict_not_preserved_related and collision_iff document the two boundaries by decide-checked witnesses. Tie: two real scans / two real graph builds vs the model, module and import sets and verdicts, with imports of non-modules.",
+        'Verdict preservation is stated on strict rules (pairwise unrelated identifiers): for related identifiers it is false for any implementation satisfying the quotient law (witness theorem). A truncated import that lands on a parent->child pair is a hierarchy edge (only with a file x.py next to a directory x/; collision_iff). Trusted: Lean kernel, harness/driver.',
         TECH,
         '6/C09',
     ),
     'C11': (
-        "Lean 4 theorems for every regex interpretation mt, every graph, every shape (Pta.C11.regex_expansion_subject/object/anything, regex_no_match, partial_name, batch_subjects, batch_objects). Tie: real regexes evaluated by Python's re, the match table sent to the model as mt; compact vs expanded rule compared on the implementation and with the model.",
-        'Trusted: Lean kernel, harness/driver; Python re is an uninterpreted relation; regex_expansion_anything carries the hypothesis that the parent/sub-module de-duplication leaves the expansion unchanged (otherwise the documented de-duplication makes both sides equal by construction of the code, checked by correspondence).',
+        "Lean 4 theorems for every regex interpretation mt, every graph, every shape: regex_expansion_subject / regex_expansion_object (a regex yields the same outcome - verdict and report - as naming all modules it matches), regex_expansion_anything_verdict and anything_alias_dedup_irrelevant (the 'anything' aliases too, without any hypothesis on the parent/sub-module de-duplication, on hierarchy-closed graphs such as every built graph), regex_no_match, partial_name, batch_subjects, batch_objects. Tie: real regexes evaluated by Python's re, the match table sent to the model as mt; compact vs expanded rule compared on the implementation and with the model.",
+        'Trusted: Lean kernel, harness/driver; Python re is an uninterpreted relation (mt).',
         TECH,
         '6/C11',
     ),
     'C12': (
-        "Lean 4 theorems on every graph (related names included): duality, negation (+ counterexample showing why one regex is not 'one subject'), both decompositions, the anything alias, both monotonicity laws; plus generated_flags_agree, a proof obligation regenerated from behavior_requirement.py and _get_dependency_expectations by a translator on every run. Tie: law instances evaluated on the real code over the C01 stream without strictness filter, and vs the model.",
+        "Lean 4 theorems on every graph (related names included): duality, negation (+ counterexample showing why one regex is not 'one subject'), both decompositions, the anything alias (alias_anything, alias_anything_verdict for all name batches, alias_anything_dedup), both monotonicity laws; plus generated_flags_agree, a proof obligation regenerated from behavior_requirement.py and _get_dependency_expectations by a translator on every run. Tie: law instances evaluated on the real code over the C01 stream without strictness filter, and vs the model.",
         'Trusted: Lean kernel, harness/driver, the 130-line translator (its output is also compared by executing the real class on all 16 rows).',
         TECH,
         '6/C12',
     ),
     'C13': (
-        'Lean 4 theorems over ALL call sequences: a Rule history the specification automaton classifies as incomplete/contradictory/error-at-call never yields a verdict (rule_history_raises, rule_history_error_at, rule_history_complete), LayerRule histories (layer_rule_history), unknown names, no-match regexes, entry options (decision table), diagrams without file/tags. Tie: exhaustive sequences up to length 5 over the builder vocabularies, mutations of complete chains, mutated names, all option combinations on the real code vs model vs automaton.',
-        "One open known finding F-C13b (absent name dropped by the 'anything' de-duplication) is proved as a counterexample theorem, replayed each run and printed as KNOWN-FINDING. Trusted: Lean kernel, harness/driver.",
+        "Lean 4 theorems over ALL call sequences: a Rule history the specification automaton classifies as incomplete/contradictory/error-at-call never yields a verdict (rule_history_raises, rule_history_error_at, rule_history_complete), LayerRule histories (layer_rule_history), unknown names (unknown_name; anything_unknown_name / anything_unknown_name_history / layer_anything_unknown_name for the 'anything' aliases - proved after defect F-C13b was repaired), no-match regexes (no_match), overlapping layers (Pta.C05.overlapping_layers_never_verdict), conflicting aliases and missing tags in diagrams, entry options (decision table). Tie: exhaustive sequences up to length 5 over the builder vocabularies, mutations of complete chains, mutated names, pattern batches with a non-matching pattern, all option combinations on the real code vs model vs automaton.",
+        'No open finding. Trusted: Lean kernel, harness/driver.',
         TECH,
         '6/C13',
     ),
@@ -95,7 +95,7 @@ CLAIMS = {
         '6/C14',
     ),
     'C15': (
-        'Partial by nature: the logic half is proved in Lean (verdict depends only on node/edge sets: verdict_congr; perm_subjects, perm_objects, perm_modules_imports, perm_patterns, perm_dir_entries; reapply, convertAliases_idem); the interpreter half (no mutation of the evaluable, hash seeds 0..7, shuffled iterdir) is observed on the real code by history/permutation/hash-seed runs and compared with the model.',
+        'Partial by nature: the logic half is proved in Lean - verdict depends only on node/edge sets (verdict_congr); perm_subjects, perm_objects, perm_modules_imports, perm_patterns, perm_dir_entries, scan_graph_perm (two scans of the same tree with different enumeration orders build equivalent graphs, any options), perm_layers (order of layer definitions, unconditional after defect F-C15a was repaired), perm_layer_rule_filters, applyAll_perm (order of generated diagram rules), diagram_lines_perm / diagram_text_perm (order of diagram lines, unconditional after F-C15b was repaired), reapply for ALL pairs of architectures, convertAliases_idem. The interpreter half (no mutation of the evaluable, hash seeds 0..7, shuffled iterdir, re-used rule objects) is observed on the real code by history/permutation/hash-seed runs and compared with the model.',
         'The model is pure by construction, so purity of the real evaluable is exercised, not proved. Trusted: Lean kernel, harness/driver.',
         TECH,
         '6/C15',
